@@ -6,6 +6,7 @@
 import Kvass.Pins.Disc
 import Kvass.Model.Explore
 import Kvass.Spec.Explore
+import Kvass.Proofs.AL
 
 namespace Kvass.Props.C20
 open Kvass Kvass.Explore
@@ -354,6 +355,311 @@ theorem step_eq_spec (s : ES) (op : Op) : step s op = Spec.C20.specStep s op := 
     · cases (({ s with timers := s.timers.erase id } : ES).objs[id]?) with
       | none => rfl
       | some e => simp only [Gen.Disc.retryRequeues, decide_eq_true_eq]; try rfl
+
+/-! ### the scheduling side: a listed target that was asked for and has not succeeded is never dropped -/
+
+/-- the table maps a hash to an entry of that hash; a listed entry that was asked for and has not yet
+    been probed successfully owns exactly one token — it is queued, being probed, or waiting for its
+    retry -/
+structure Live (s : ES) : Prop where
+  keyed : ∀ h id, s.table.get h = some id → ∃ e, s.objs[id]? = some e ∧ e.hash = h
+  pending : ∀ h id e, s.table.get h = some id → s.objs[id]? = some e → e.exploring = true → e.succeeded = false →
+    tok s id = 1
+
+theorem live_init : Live ({} : ES) := ⟨by intro h id hg; simp [AL.get] at hg, by intro h id e hg; simp [AL.get] at hg⟩
+
+theorem get_filter_sub {α} (m : AL α) (pk : Hash → Bool) (h : Hash) (v : α)
+    (hg : AL.get (m.filter fun p => pk p.1) h = some v) : AL.get m h = some v := by
+  induction m with
+  | nil => simp [AL.get] at hg
+  | cons e m ih =>
+    obtain ⟨k, x⟩ := e
+    by_cases hp : pk k = true
+    · rw [List.filter_cons_of_pos (by simpa using hp)] at hg
+      rw [AL.get_cons] at hg ⊢
+      split
+      · rename_i hk; rw [if_pos hk] at hg; exact hg
+      · rename_i hk; rw [if_neg hk] at hg; exact ih hg
+    · rw [List.filter_cons_of_neg (by simpa using hp)] at hg
+      rw [AL.get_cons]
+      split
+      · rename_i hk
+        subst hk
+        -- `h` is filtered out of the rest as well
+        exfalso
+        have : ∀ (m : AL α), AL.get (m.filter fun p => pk p.1) k = none := by
+          intro m
+          induction m with
+          | nil => rfl
+          | cons e m ih2 =>
+            obtain ⟨k2, x2⟩ := e
+            by_cases hp2 : pk k2 = true
+            · rw [List.filter_cons_of_pos (by simpa using hp2), AL.get_cons]
+              split
+              · rename_i e2; subst e2; exact absurd hp2 hp
+              · exact ih2
+            · rw [List.filter_cons_of_neg (by simpa using hp2)]; exact ih2
+        rw [this m] at hg; cases hg
+      · exact ih hg
+
+/-- the table after a discovery update: an old entry kept for its hash, or a fresh one -/
+theorem update_table (s : ES) (hs : List Hash) (h : Hash) (id : Nat)
+    (hg : (step s (.update hs)).table.get h = some id) :
+    s.table.get h = some id ∨ (s.objs.length ≤ id ∧ (step s (.update hs)).objs[id]? = some { hash := h }) := by
+  simp only [step] at hg ⊢
+  have gen : ∀ (hs : List Hash) (acc : ES),
+      (∃ fresh, acc.objs = s.objs ++ fresh) →
+      (∀ h id, acc.table.get h = some id → s.table.get h = some id ∨ (s.objs.length ≤ id ∧ acc.objs[id]? = some { hash := h })) →
+      let r := hs.foldl (fun (acc : ES) h =>
+        if acc.table.has h then acc
+        else match s.table.get h with
+          | some id => if Gen.Disc.exploreKeepsEntry true then { acc with table := acc.table.set h id } else acc
+          | none => { acc with objs := acc.objs ++ [{ hash := h }], table := acc.table.set h acc.objs.length }) acc
+      ∀ h id, r.table.get h = some id → s.table.get h = some id ∨ (s.objs.length ≤ id ∧ r.objs[id]? = some { hash := h }) := by
+    intro hs
+    induction hs with
+    | nil => intro acc _ h2; exact h2
+    | cons x hs ih =>
+      intro acc h1 h2
+      simp only [List.foldl_cons]
+      apply ih
+      · split
+        · exact h1
+        · split
+          · split <;> exact h1
+          · obtain ⟨fresh, e1⟩ := h1
+            exact ⟨fresh ++ [{ hash := x }], by simp [e1, List.append_assoc]⟩
+      · split
+        · exact h2
+        · split
+          · rename_i id0 hid0
+            split
+            · intro h' id' hg'
+              simp only at hg'
+              rw [AL.get_set] at hg'
+              split at hg'
+              · rename_i e; subst e; cases hg'; exact Or.inl hid0
+              · exact h2 h' id' hg'
+            · exact h2
+          · rename_i hnone
+            intro h' id' hg'
+            simp only at hg' ⊢
+            rw [AL.get_set] at hg'
+            split at hg'
+            · rename_i e; subst e; cases hg'
+              obtain ⟨fresh, e1⟩ := h1
+              refine Or.inr ⟨by rw [e1]; simp, ?_⟩
+              rw [List.getElem?_append_right (Nat.le_refl _)]; simp
+            · rcases h2 h' id' hg' with hl | ⟨hr1, hr2⟩
+              · exact Or.inl hl
+              · exact Or.inr ⟨hr1, getElem?_append_some hr2⟩
+  exact gen hs { s with table := [] } ⟨[], by simp⟩ (by intro h id hg; simp [AL.get] at hg) h id hg
+
+theorem step_live (s : ES) (op : Op) (inv : Inv s) (lv : Live s) : Live (step s op) := by
+  cases op with
+  | get h0 =>
+    simp only [step]
+    split
+    · exact lv
+    · rename_i id hid
+      split
+      · exact lv
+      · rename_i e he
+        split
+        · rename_i hst
+          have hne : e.exploring = false := by simpa [Gen.Disc.getStarts] using hst
+          have h0 : tok s id = 0 := by
+            rcases Nat.eq_zero_or_pos (tok s id) with h | h
+            · exact h
+            · obtain ⟨e', he', hx, _⟩ := inv.live id h
+              rw [he] at he'; cases he'; rw [hne] at hx; cases hx
+          have htok : ∀ k, tok { setObj s id (fun e => { e with exploring := true }) with
+              queue := s.queue ++ [id] } k = tok s k + (if id = k then 1 else 0) := by
+            intro k
+            have := setObj_tok s id (fun e => { e with exploring := true }) k
+            unfold tok at this ⊢
+            simp only [cnt_snoc]
+            unfold setObj at this ⊢
+            cases s.objs[id]? <;> simp only at this ⊢ <;> omega
+          have htab : ({ setObj s id (fun e => { e with exploring := true }) with queue := s.queue ++ [id] } : ES).table = s.table := by
+            unfold setObj; cases s.objs[id]? <;> rfl
+          constructor
+          · intro h k hg
+            rw [htab] at hg
+            obtain ⟨e', he', hh⟩ := lv.keyed h k hg
+            show ∃ e'', (setObj s id (fun e => { e with exploring := true })).objs[k]? = some e'' ∧ _
+            rw [setObj_get]
+            by_cases hki : k = id
+            · subst hki; simp only [if_true, he', Option.map_some]; exact ⟨_, rfl, hh⟩
+            · simp only [hki, if_false]; exact ⟨e', he', hh⟩
+          · intro h k e' hg hk hx hs'
+            rw [htab] at hg
+            rw [htok]
+            have hk' : (setObj s id (fun e => { e with exploring := true })).objs[k]? = some e' := hk
+            rw [setObj_get] at hk'
+            by_cases hki : k = id
+            · subst hki; simp [h0]
+            · simp only [hki, if_false] at hk'
+              have := lv.pending h k e' hg hk' hx hs'
+              have hne' : ¬ id = k := fun e => hki e.symm
+              simp [hne', this]
+        · exact lv
+  | update hs =>
+    obtain ⟨hq, hi, ht, fresh, hobjs, hfresh⟩ := update_objs s hs
+    have htok : ∀ k, tok (step s (.update hs)) k = tok s k := by intro k; unfold tok; rw [hq, hi, ht]
+    constructor
+    · intro h k hg
+      rcases update_table s hs h k hg with hl | ⟨_, hr⟩
+      · obtain ⟨e, he, hh⟩ := lv.keyed h k hl
+        exact ⟨e, by rw [hobjs]; exact getElem?_append_some he, hh⟩
+      · exact ⟨_, hr, rfl⟩
+    · intro h k e hg hk hx hs'
+      rw [htok]
+      rcases update_table s hs h k hg with hl | ⟨_, hr⟩
+      · obtain ⟨e0, he0, _⟩ := lv.keyed h k hl
+        have : (step s (.update hs)).objs[k]? = some e0 := by rw [hobjs]; exact getElem?_append_some he0
+        rw [this] at hk
+        have e' : e0 = e := Option.some.inj hk
+        rw [e'] at he0
+        exact lv.pending h k e hl he0 hx hs'
+      · rw [hr] at hk; cases hk; cases hx
+  | prune keep =>
+    constructor
+    · intro h k hg
+      exact lv.keyed h k (get_filter_sub s.table (fun x => keep.contains x) h k hg)
+    · intro h k e hg hk hx hs'
+      exact lv.pending h k e (get_filter_sub s.table (fun x => keep.contains x) h k hg) hk hx hs'
+  | start id =>
+    simp only [step]
+    split
+    · rename_i hc
+      have hpos : 0 < s.queue.count id := by rw [List.count_pos_iff]; simpa using hc
+      have htok : ∀ k, tok { s with queue := s.queue.erase id, inflight := s.inflight ++ [id] } k = tok s k := by
+        intro k; unfold tok; simp only [cnt_erase, cnt_snoc]
+        by_cases hk : k = id
+        · subst hk; simp; omega
+        · simp [hk, Ne.symm hk]
+      exact ⟨lv.keyed, fun h k e hg hk hx hs' => by rw [htok]; exact lv.pending h k e hg hk hx hs'⟩
+    · exact lv
+  | finish id r =>
+    simp only [step]
+    split
+    · exact lv
+    · rename_i hc
+      have hmem : s.inflight.contains id = true := by simpa using hc
+      have hpos : 0 < s.inflight.count id := by rw [List.count_pos_iff]; simpa using hmem
+      have hone := inv.one id
+      cases r with
+      | none =>
+        simp only [Gen.Disc.probeFailed, Bool.not_false, if_true]
+        have htok : ∀ k, tok { s with inflight := s.inflight.erase id, timers := s.timers ++ [id] } k = tok s k := by
+          intro k; unfold tok; simp only [cnt_erase, cnt_snoc]
+          by_cases hk : k = id
+          · subst hk; simp; omega
+          · simp [hk, Ne.symm hk]
+        exact ⟨lv.keyed, fun h k e hg hk hx hs' => by rw [htok]; exact lv.pending h k e hg hk hx hs'⟩
+      | some c =>
+        simp only
+        have htok : ∀ k, k ≠ id → tok (setObj { s with inflight := s.inflight.erase id } id
+            (fun e => { e with succeeded := true, est := some c })) k = tok s k := by
+          intro k hk
+          rw [setObj_tok]
+          unfold tok
+          simp only [cnt_erase, hk, if_false]
+        have htab : (setObj { s with inflight := s.inflight.erase id } id
+            (fun e => { e with succeeded := true, est := some c })).table = s.table := by
+          unfold setObj; simp only; cases s.objs[id]? <;> rfl
+        constructor
+        · intro h k hg
+          rw [htab] at hg
+          obtain ⟨e', he', hh⟩ := lv.keyed h k hg
+          rw [setObj_get]
+          have he'' : ({ s with inflight := s.inflight.erase id } : ES).objs[k]? = some e' := he'
+          by_cases hki : k = id
+          · subst hki; simp only [if_true, he'', Option.map_some]; exact ⟨_, rfl, hh⟩
+          · simp only [hki, if_false]; exact ⟨e', he'', hh⟩
+        · intro h k e hg hk hx hs'
+          rw [htab] at hg
+          rw [setObj_get] at hk
+          by_cases hki : k = id
+          · subst hki
+            simp only [if_true] at hk
+            cases ho : ({ s with inflight := s.inflight.erase k } : ES).objs[k]? with
+            | none => rw [ho] at hk; cases hk
+            | some e0 => rw [ho] at hk; simp only [Option.map_some] at hk; cases hk; cases hs'
+          · simp only [hki, if_false] at hk
+            rw [htok k hki]
+            exact lv.pending h k e hg hk hx hs'
+  | timer id =>
+    simp only [step]
+    split
+    · exact lv
+    · rename_i hc
+      have hmem : s.timers.contains id = true := by simpa using hc
+      have hpos : 0 < s.timers.count id := by rw [List.count_pos_iff]; simpa using hmem
+      have hne : ∀ k, k ≠ id → tok { s with timers := s.timers.erase id } k = tok s k := by
+        intro k hk; unfold tok; simp only [cnt_erase, hk, if_false]
+      split
+      · rename_i hnone
+        refine ⟨lv.keyed, ?_⟩
+        intro h k e hg hk hx hs'
+        have hk' : s.objs[k]? = some e := hk
+        by_cases hki : k = id
+        · subst hki
+          have : s.objs[k]? = none := hnone
+          rw [this] at hk'; cases hk'
+        · rw [hne k hki]; exact lv.pending h k e hg hk' hx hs'
+      · rename_i e0 he0
+        have he0' : s.objs[id]? = some e0 := he0
+        split
+        · have htok : ∀ k, tok { s with timers := s.timers.erase id, queue := s.queue ++ [id] } k = tok s k := by
+            intro k; unfold tok; simp only [cnt_erase, cnt_snoc]
+            by_cases hk : k = id
+            · subst hk; simp; omega
+            · simp [hk, Ne.symm hk]
+          exact ⟨lv.keyed, fun h k e hg hk hx hs' => by rw [htok]; exact lv.pending h k e hg hk hx hs'⟩
+        · rename_i hnot
+          refine ⟨lv.keyed, ?_⟩
+          intro h k e hg hk hx hs'
+          have hk' : s.objs[k]? = some e := hk
+          have hg' : s.table.get h = some k := hg
+          by_cases hki : k = id
+          · subst hki
+            exfalso
+            obtain ⟨e1, he1, hh⟩ := lv.keyed h k hg'
+            rw [he0'] at he1; cases he1
+            apply hnot
+            simp only [Gen.Disc.retryRequeues, decide_eq_true_eq]
+            rw [hh]; exact hg'
+          · rw [hne k hki]; exact lv.pending h k e hg' hk' hx hs'
+
+/-- **C20 (never dropped)**: after every history of gets, discovery updates, reloads, probe starts,
+    probe results and retry timers, a target that is listed, was asked for and has not been probed
+    successfully is queued, being probed or waiting for its retry timer — exactly one of these.  (So
+    with workers that take what is queued and timers that fire, "a failed probe is retried until one
+    succeeds or the target disappears from discovery".) -/
+theorem C20_never_dropped (ops : List Op) (h : Hash) (id : Nat) (e : Entry)
+    (hl : (run ops).table.get h = some id) (he : (run ops).objs[id]? = some e)
+    (hx : e.exploring = true) (hs : e.succeeded = false) : tok (run ops) id = 1 := by
+  have : ∀ (ops : List Op) (s : ES), Inv s → Live s → Inv (ops.foldl step s) ∧ Live (ops.foldl step s) := by
+    intro ops
+    induction ops with
+    | nil => intro s h1 h2; exact ⟨h1, h2⟩
+    | cons op ops ih => intro s h1 h2; exact ih (step s op) (step_inv s op h1) (step_live s op h1 h2)
+  exact (this ops {} inv_init live_init).2.pending h id e hl he hx hs
+
+/-- … and the first `get` of a listed, not yet asked target queues it -/
+theorem C20_first_get_queues (ops : List Op) (h : Hash) (id : Nat) (e : Entry)
+    (hl : (run ops).table.get h = some id) (he : (run ops).objs[id]? = some e) (hx : e.exploring = false) :
+    (step (run ops) (.get h)).queue = (run ops).queue ++ [id] := by
+  simp only [step, hl, he, Gen.Disc.getStarts, hx, Bool.not_false, if_true]
+
+/-- non-vacuity of `C20_never_dropped`: after a failed probe the listed, asked, unsuccessful entry 0
+    waits for its retry timer, and after the timer it is queued again -/
+example : (run [.update [7], .get 7, .start 0, .finish 0 none]).table.get 7 = some 0 ∧
+    (run [.update [7], .get 7, .start 0, .finish 0 none]).timers = [0] ∧
+    tok (run [.update [7], .get 7, .start 0, .finish 0 none]) 0 = 1 ∧
+    (run [.update [7], .get 7, .start 0, .finish 0 none, .timer 0]).queue = [0] := by decide
 
 /-- non-vacuity: fail, retry, succeed; then remove + re-add: the stale timer does not requeue -/
 example : (run [.update [7], .get 7, .start 0, .finish 0 none, .update [], .update [7], .get 7, .timer 0]).queue = [1] := by decide
